@@ -51,7 +51,14 @@ def gen_synthetic(run, i):
             # value range per band: mixed sign, all negative (e.g. the offsets of a hazy source), all positive, constant
             lo, hi = [(-3, 8), (-9, -1), (2, 8), (-3, 8), (-0.5, -0.5)][(i + b) % 5] if b != 0 else (-3, 8)
             data[b] = np.array([[rng.uniform(lo, hi) for _ in range(w)] for _ in range(h)], dtype='float32')
-    pattern = ['common-border', 'band1-strip', 'per-band-holes', 'r2-nan-patches', 'band1-empty-corner', 'inf-values'][(i // 3) % 6]
+    if (i // 3) % 7 == 6:
+        # the diagonal swath needs tiles that hold nothing: a larger image, 16 x 16 tiles among the tilings, a threshold
+        h, w = rng.randint(56, 70), rng.randint(56, 70)
+        model, thresh = 'gain_offset', rng.choice([0.25, 0.5])
+        data = np.zeros((3 * n, h, w), dtype='float32')
+        for b in range(3 * n):
+            data[b] = np.array([[rng.uniform(-3, 8) if b < 2 * n else rng.random() for _ in range(w)] for _ in range(h)], dtype='float32')
+    pattern = ['common-border', 'band1-strip', 'per-band-holes', 'r2-nan-patches', 'band1-empty-corner', 'inf-values', 'diagonal-swath'][(i // 3) % 7]
     data[:, :rng.randint(0, 3), :] = np.nan
     if pattern == 'band1-strip':
         c0 = 16 * rng.randint(0, max(0, w // 16 - 1))
@@ -67,6 +74,11 @@ def gen_synthetic(run, i):
             data[b, r:r + 6, c:c + 9] = np.nan
     elif pattern == 'band1-empty-corner':
         data[0, :min(h, 32), :min(w, 32)] = np.nan
+    elif pattern == 'diagonal-swath':
+        # a diagonal swath of valid data (a rotated footprint): tiles that meet the bounding window of the valid data but hold no
+        # valid pixel at all
+        rr, cc = np.mgrid[0:h, 0:w]
+        data[:, np.abs(rr * w / h - cc) > max(3, w / 5)] = np.nan
     elif pattern == 'inf-values':
         # the nodata value of a parameter image is NaN, so +-inf are valid pixel values - and fuse writes them: +inf gains
         # where a whole kernel of the source is 0, -inf R2 where the reference is constant over a kernel
@@ -80,7 +92,8 @@ def gen_synthetic(run, i):
             data[1, rng.randrange(h), rng.randrange(w)] = -np.inf
             data[1, rng.randrange(h), rng.randrange(w)] = np.inf
     return dict(i=i, n=n, h=h, w=w, model=model, thresh=thresh, pattern=pattern,
-                tilings=rng.sample(range(len(TILINGS)), 2), threads=rng.choice([1, 2, 4])), data
+                tilings=rng.sample(range(len(TILINGS)), 2) if pattern != 'diagonal-swath' else [0, rng.choice([2, 4])],
+                threads=rng.choice([1, 2, 4])), data
 
 
 def tok(v):
@@ -129,14 +142,14 @@ def inf_band_check(path, b, row, model, thresh):
     is_r2 = model == 'gain_offset' and (b >= count * 2 / 3)
     if is_r2 and thresh is not None:
         ip = 100.0 * float((v < thresh).sum()) / v.size
-        if 'inpaint_p' not in row or abs(row['inpaint_p'] - ip) > 1e-9:
+        if 'inpaint_p' not in row or not (abs(row['inpaint_p'] - ip) <= 1e-9):
             return f'band {b + 1} (holds -inf as valid values): inpaint_p = {row.get("inpaint_p")}, 100*#(R2 < {thresh})/n is {ip}'
     return None
 
 
 def run(run: common.Run):
     from homonim import ParamStats
-    n = 18 if run.quick() else 200
+    n = 21 if run.quick() else 210
     run.rule = ('synthetic parameter images (1-3 band pairs, 20..70 px, band-specific validity: first-band strips, per-band holes, '
                 'R2 NaN patches, empty corners) + images written by real fusions; each stored with 2 of 5 tilings; stats with '
                 'threads 1/2/4; every band figure vs the exact model; distinct by (image, tiling, threads)')
@@ -216,13 +229,13 @@ def run(run: common.Run):
             ip = None if t[5] == '_' else Fraction(t[5])
             if float(row['min']) != float(mmin) or float(row['max']) != float(mmax):
                 bad = f'band {b + 1}: min/max = {row["min"]}/{row["max"]}, over all valid pixels {float(mmin)}/{float(mmax)}'
-            elif abs(row['mean'] - float(mean)) > 1e-9 * max(1.0, abs(float(mean))):
+            elif not (abs(row['mean'] - float(mean)) <= 1e-9 * max(1.0, abs(float(mean)))):
                 bad = f'band {b + 1}: mean = {row["mean"]}, mean over all {mn} valid pixels is {float(mean)}'
-            elif abs(row['std'] ** 2 - float(var)) > 1e-7 * max(1e-6, float(var)):
+            elif not (abs(row['std'] ** 2 - float(var)) <= 1e-7 * max(1e-6, float(var))):
                 bad = f'band {b + 1}: std = {row["std"]}, population std of the valid pixels is {math.sqrt(float(var))}'
             elif (ip is None) != ('inpaint_p' not in row):
                 bad = f'band {b + 1}: in-paint percentage {"missing" if ip is not None else "unexpected"}'
-            elif ip is not None and abs(row['inpaint_p'] - float(ip)) > 1e-9:
+            elif ip is not None and not (abs(row['inpaint_p'] - float(ip)) <= 1e-9):
                 bad = f'band {b + 1}: inpaint_p = {row["inpaint_p"]}, 100*#(R2 < {thresh})/n is {float(ip)}'
             if bad:
                 break
